@@ -439,3 +439,33 @@ def slice_cardinality(ctx: Ctx) -> None:
                 ctx.bad(R, f, sp, f'`{norm(sp)[:50]}` takes the span of `{norm(c)[:40]}` without its step component: a stepped slice (`[::2]`, `[::-1]`) selects '
                         'ceil(span / step) positions, not span', key=key)
     ctx.require(n >= 6, 'slice.indices sites')
+
+
+def descending_slice_normalised(ctx: Ctx) -> None:
+    R = 'I.descending-slice-normalised'
+    ctx.rule(R, 'util.slice_to_ascending_slice turns a descending positional slice into the ascending slice over the same positions (mask / drop / astype need ascending '
+             'column keys); bounds of a positional slice may be negative (counted from the end) or None, so before its arithmetic on `.start` / `.stop` the function either '
+             'normalises the key with `.indices(size)` or restates negative bounds as positions under a `< 0` test; raw arithmetic on a negative bound addresses other '
+             'columns (`mask.iloc[:, -1::-1]` marked nothing)', floor=1)
+    prog = ctx.prog
+    f = prog.func('util.slice_to_ascending_slice')
+    kparam = f.params[0]
+    arith = [b for b in walk_local(f.node) if isinstance(b, ast.BinOp) and any(isinstance(x, ast.Attribute) and x.attr in ('start', 'stop') and isinstance(x.value, ast.Name)
+                                                                               and x.value.id == kparam for x in ast.walk(b))]
+    ctx.require(bool(arith) or any(isinstance(c, ast.Call) and isinstance(c.func, ast.Attribute) and c.func.attr == 'indices' for c in walk_local(f.node)),
+                'slice_to_ascending_slice computes with the bounds of its key')
+    first_arith = min([b.lineno for b in arith] or [10 ** 9])
+    via_indices = any(isinstance(c, ast.Call) and isinstance(c.func, ast.Attribute) and c.func.attr == 'indices' and c.lineno <= first_arith for c in walk_local(f.node))
+    neg_tests = [i for i in walk_local(f.node) if isinstance(i, ast.If) and i.lineno < first_arith and
+                 any(isinstance(c, ast.Compare) and len(c.ops) == 1 and isinstance(c.ops[0], ast.Lt) and norm(c.comparators[0]) == '0'
+                     and any(isinstance(x, ast.Attribute) and x.attr in ('start', 'stop') for x in ast.walk(c.left)) for c in ast.walk(i.test))]
+    # the negative-bound branch rebinds the key (or the locals the arithmetic then uses)
+    restates = any(any(isinstance(a, ast.Assign) for a in ast.walk(i)) for i in neg_tests)
+    # both bounds are covered
+    covered = {x.attr for i in neg_tests for c in ast.walk(i.test) if isinstance(c, ast.Compare) for x in ast.walk(c.left) if isinstance(x, ast.Attribute) and x.attr in ('start', 'stop')}
+    key = 'slice_to_ascending_slice:negative-bounds'
+    if via_indices or (restates and covered >= {'start', 'stop'}):
+        ctx.ok(R, f, f.node, 'negative bounds are restated as positions before the arithmetic' if not via_indices else 'the key is normalised with .indices(size)', key=key)
+    else:
+        ctx.bad(R, f, arith[0] if arith else f.node, f'`{norm(arith[0])[:50]}` computes with a raw bound of `{kparam}` although negative bounds were not normalised '
+                f'(covered: {sorted(covered) or "none"}): a descending slice with a negative start or stop maps to the wrong ascending slice', key=key)
